@@ -550,32 +550,34 @@ def replay_sweep(obligation=None, model=None, meta=None):
             return float('inf'), 1.0
         return max(float(np.min(np.abs(b - v))) for v in a), max(1.0, float(np.max(np.abs(b))))
     n = 0
-    # (i) a time constant: the operating point does not move, so every round must equal a fresh system with that value
-    mdl, par, factors = 'GENROU', 'M', (1.0, 2.0, 4.0)
-    with contextlib.redirect_stdout(io.StringIO()), contextlib.redirect_stderr(io.StringIO()):
-        ss = fresh_system()
-        ss.PFlow.run()
-        ss.EIG.run()
-        m = ss.__dict__[mdl]
-        dev = m.idx.v[0]
-        base = float(m.get(par, dev, 'v'))
-        res = ss.EIG.sweep(m.__dict__[par], dev, [base * f for f in factors])
-    if not res or len(res) != len(factors):
-        return {'confirmed': True, 'inputs': {'case': 'kundur_full', 'sweep': '%s.%s of %r' % (mdl, par, dev)}, 'observed': 'sweep returned %r' % (res,),
-                'native_cmd': 'contracts/fn_eig.py replay_sweep'}
-    for k, f in enumerate(factors):
-        n += 1
+    # (i) an inertia (time constant) and a machine damping (enters only Jacobian blocks without variable arguments): the operating point
+    #     does not move, so every round must equal a fresh system with that value
+    for mdl, par, values in (('GENROU', 'M', None), ('GENROU', 'D', (0.0, 18.0, 45.0))):
         with contextlib.redirect_stdout(io.StringIO()), contextlib.redirect_stderr(io.StringIO()):
-            ref = fresh_system()
-            rm = ref.__dict__[mdl]
-            rm.alter(par, dev, f * float(rm.get(par, dev, 'vin')))
-            ref.PFlow.run()
-            ref.EIG.run()
-        d, scale = distance(res[k]['mu'], ref.EIG.mu)
-        if d > 1e-5 * scale:
-            return {'confirmed': True, 'inputs': {'case': 'kundur_full (events disabled)', 'sweep': 'EIG.sweep(%s.%s, %r, base * %r)' % (mdl, par, dev, list(factors)), 'round': k},
-                    'observed': 'round %d (value %r): an eigenvalue is %.3e away from every eigenvalue of a fresh system with the same value' % (k, base * f, d),
+            ss = fresh_system()
+            ss.PFlow.run()
+            ss.EIG.run()
+            m = ss.__dict__[mdl]
+            dev = m.idx.v[0]
+            base_in = float(m.get(par, dev, 'vin'))
+            coeff = float(m.get(par, dev, 'pu_coeff'))
+            vin_values = [base_in * f for f in (1.0, 2.0, 4.0)] if values is None else list(values)
+            res = ss.EIG.sweep(m.__dict__[par], dev, [x * coeff for x in vin_values])
+        if not res or len(res) != len(vin_values):
+            return {'confirmed': True, 'inputs': {'case': 'kundur_full', 'sweep': '%s.%s of %r' % (mdl, par, dev)}, 'observed': 'sweep returned %r' % (res,),
                     'native_cmd': 'contracts/fn_eig.py replay_sweep'}
+        for k, x in enumerate(vin_values):
+            n += 1
+            with contextlib.redirect_stdout(io.StringIO()), contextlib.redirect_stderr(io.StringIO()):
+                ref = fresh_system()
+                ref.__dict__[mdl].alter(par, dev, x)
+                ref.PFlow.run()
+                ref.EIG.run()
+            d, scale = distance(res[k]['mu'], ref.EIG.mu)
+            if d > 1e-5 * scale:
+                return {'confirmed': True, 'inputs': {'case': 'kundur_full (events disabled)', 'sweep': 'EIG.sweep(%s.%s, %r, %r [input base])' % (mdl, par, dev, vin_values), 'round': k},
+                        'observed': 'round %d (value %r): an eigenvalue is %.3e away from every eigenvalue of a fresh system with the same value' % (k, x, d),
+                        'native_cmd': 'contracts/fn_eig.py replay_sweep'}
     # (ii) a gain: the round's spectrum must be that of the state matrix rebuilt from freshly evaluated Jacobians at the point the sweep left
     with contextlib.redirect_stdout(io.StringIO()), contextlib.redirect_stderr(io.StringIO()):
         ss = fresh_system()
